@@ -184,6 +184,15 @@ def pairing_and_filter(check, P, cls_name, n_samples=4):
             I.heap = saved
         if isinstance(path.value, ArrV):
             items = list(path.value.items)
+        direct = [e for e in path.trace if e.kind == "EXT" and tagof(e.data.get("callee")) == "hm._interpolator"]
+        if direct and short == "raster":
+            # the raster map must read zero outside the image: get_depth_at range-checks before it evaluates the
+            # spline; a direct evaluation of the spline for path samples skips that rule
+            paired += 1
+            check.violation("R2", f"{short}:samples-bypass-range-check",
+                            f"_interpolate_line evaluates the interpolator directly ({I.tag(direct[0].data['args'][0])[:60]}, ...) instead of through get_depth_at: "
+                            "samples outside the image carry the clamped edge height instead of zero", [decisions_text(path)])
+            continue
         if not items:
             continue
         for t in items:
